@@ -276,7 +276,10 @@ static void tuple_case(void)
     unsigned shape;
     long t = vh_case_idx / 3 * 2 + vh_case_idx % 3;              /* running tuple number */
     if (t < 256) shape = (unsigned) t;                            /* every shape once, then random */
-    else shape = (unsigned) vh_below(256);
+    else {
+        shape = (unsigned) vh_below(256);
+        if (!((shape >> F_HOST) & 1) && vh_coin(60)) shape |= 1u << F_HOST;        /* bare paths: a fifth of the tuples */
+    }
     int slashes = (shape >> 7) & 1;
     comps_t c;
     gen_tuple(&c, shape);
@@ -394,7 +397,7 @@ static void tuple_case(void)
         }
         spif_url_del(u2);
         vh_cov(vh_mix(vh_mix(shape | (unsigned) forced << 8, (uint64_t) oc), (uint64_t) proto_class));
-        if (oc == OUT_TCP && (t < 2 || vh_coin(2)))
+        if (oc == OUT_TCP && c.f[F_HOST] && c.f[F_USER] && (c.f[F_PROTO] || vh_coin(30)) && vh_coin(20))
             vh_sample("%s [%s, service port %d] -> proto=%s user=%s passwd=%s host=%s port=%s path=%s query=%s -> unparse %s", text, OUTNAME[oc], svc_port,
                       vh_qs(now.f[F_PROTO]), vh_qs(now.f[F_USER]), vh_qs(now.f[F_PASSWD]), vh_qs(now.f[F_HOST]), vh_qs(now.f[F_PORT]),
                       vh_qs(now.f[F_PATH]), vh_qs(now.f[F_QUERY]), got_copy);
